@@ -316,6 +316,9 @@ cfgLoop:
 			cfg.AddLocationFlag = true
 		case "stoprel":
 			cfg.StopTimeS = sc.AtoiPtr(key, val)
+			if cfg.StopTimeS == nil {
+				return nil, sc.err
+			}
 			*cfg.StopTimeS += ms2S(nowMS)
 			cfg.AddLocationFlag = true
 		case "dur": // Adds a presentation duration for multiple periods
